@@ -22,7 +22,9 @@ TECHNIQUE = 'explicit-state model checking of the real reader: full history tree
 LEVEL_TEXT = ('Every segment history over the stated header alphabet (all per-object encodings x orders x new-list flag x '
               'metadata-present flag x chunk counts x property update x forbidden moves) is executed on the real reader, '
               'eagerly and lazily: full tree to depth 2-3 and BFS over abstract+implementation state to a fixpoint (depth-unbounded '
-              'for that alphabet). Counts of states/transitions/histories are in the evidence.')
+              'for that alphabet). Also: an alphabet of declarations contributing no values (zero-length indexes, zero chunks), '
+              'depth-4 trees over 13 / 25 labels, and DAQmx layouts whose later segments restate / permute / switch off / inherit '
+              'indexes. Counts of states/transitions/histories are in the evidence.')
 LEVEL_NOTE = ('Trusted: the reference semantics in mc/tdmsgen.py (independent of nptdms; bound by selftest to LabVIEW-written files) '
               'and soundness of state merging (key = model state refined by implementation fingerprint). Universe: 2-3 channels, '
               'n<=2 values, <=2 chunks, contiguous layout.')
